@@ -421,6 +421,12 @@ func (x *Engine) applyContract(fr *Frame, st *State, fs *FuncSpec, sig *types.Si
 	if len(res) == 1 {
 		env["result"] = res[0]
 	}
+	// panicked() inside an always clause: whether this call ended in a panic
+	pc := Val{T: "false", Sort: "Bool"}
+	if fs.Panics == "may" {
+		pc = x.freshVal("maypanic", types.Typ[types.Bool], nil)
+	}
+	env["$panicked"] = Val{T: pc.T, Sort: "Bool"}
 	for _, c := range fs.Ensures {
 		if c.Kind == "always" {
 			ev := &Eval{x: x, st: st, old: pre, env: env, pkg: pkg}
@@ -428,7 +434,6 @@ func (x *Engine) applyContract(fr *Frame, st *State, fs *FuncSpec, sig *types.Si
 		}
 	}
 	if fs.Panics == "may" {
-		pc := x.freshVal("maypanic", types.Typ[types.Bool], nil)
 		fr.panics = append(fr.panics, exit{cond: x.name("pc", "Bool", andTerms(st.live, pc.T)), st: st.clone(), origin: "callee-panic[" + shortKey(key) + "]@" + pos})
 		st.live = x.name("live", "Bool", andTerms(st.live, notTerm(pc.T)))
 	}
